@@ -11,7 +11,7 @@
    argument wrapper, never inside an array): C02_soundness_partial,
    C02_preservation_partial.  The full statement [soundness_full] is REFUTED
    on the model (and on the implementation): C02_soundness_full_refuted. *)
-From Coq Require Import ZArith NArith List String Bool Floats.
+From Coq Require Import ZArith NArith List String Bool.
 From EvyV Require Import Base Num Ast Omap Sem Static SemSound.
 Import ListNotations.
 Open Scope Z_scope.
@@ -106,15 +106,19 @@ Print Assumptions C02_typeof_prints_tag.
 
 (* ---------- example programs (as the Go harness exports them) ---------- *)
 Definition v_ (n : string) (t : ty) : expr := EVar (s_ n) t.
+(* number literals travel as their IEEE bit patterns, as in the export *)
+Definition n0 : expr := ENum (float_of_bits 0).
+Definition n1 : expr := ENum (float_of_bits 4607182418800017408).
+Definition n2 : expr := ENum (float_of_bits 4611686018427387904).
 Definition s0_ : state := init_state None [] false false.
 
 (*  x := 1 / a := [1 2] / for i := range 2 / a[i] = a[i] + x / end / print a (len a)  *)
 Definition ex_ok : program :=
   {| p_funcs := []; p_handlers := [];
      p_stmts :=
-       [SDecl (s_ "x") TNum (ENum 1);
-        SDecl (s_ "a") (TArr TNum) (EArr (TArr TNum) [ENum 1; ENum 2]);
-        SFor (Some (s_ "i")) TNum (RStep None (ENum 2) None)
+       [SDecl (s_ "x") TNum n1;
+        SDecl (s_ "a") (TArr TNum) (EArr (TArr TNum) [n1; n2]);
+        SFor (Some (s_ "i")) TNum (RStep None n2 None)
           [SAssign (EIndex TNum (v_ "a" (TArr TNum)) (v_ "i" TNum))
                    (EBin BPlus TNum (EIndex TNum (v_ "a" (TArr TNum)) (v_ "i" TNum)) (v_ "x" TNum))];
         SCallStmt (s_ "print")
@@ -141,8 +145,8 @@ Definition ex_cyclic : program :=
   {| p_funcs := []; p_handlers := [];
      p_stmts :=
        [SDecl (s_ "a") (TArr TAny) (EArr (TArr TAny) []);
-        SAssign (v_ "a" (TArr TAny)) (EArr (TArr TAny) [EAny (ENum 1) TNum]);
-        SAssign (EIndex TAny (v_ "a" (TArr TAny)) (ENum 0)) (EAny (v_ "a" (TArr TAny)) (TArr TAny));
+        SAssign (v_ "a" (TArr TAny)) (EArr (TArr TAny) [EAny n1 TNum]);
+        SAssign (EIndex TAny (v_ "a" (TArr TAny)) n0) (EAny (v_ "a" (TArr TAny)) (TArr TAny));
         SCallStmt (s_ "print") [EAny (v_ "a" (TArr TAny)) (TArr TAny)]] |}.
 
 (*  f / x := 1 / print x / func f / x = 2 / end  : the body of f assigns a
@@ -150,11 +154,11 @@ Definition ex_cyclic : program :=
     ("internal error: bad assignment target"; confirmed on the implementation) *)
 Definition ex_early_call : program :=
   {| p_funcs := [{| fn_name := s_ "f"; fn_params := []; fn_variadic := None; fn_ret := TNone;
-                    fn_body := [SAssign (v_ "x" TNum) (ENum 2)] |}];
+                    fn_body := [SAssign (v_ "x" TNum) n2] |}];
      p_handlers := [];
      p_stmts :=
        [SCallStmt (s_ "f") [];
-        SDecl (s_ "x") TNum (ENum 1);
+        SDecl (s_ "x") TNum n1;
         SCallStmt (s_ "print") [EAny (v_ "x" TNum) TNum];
         SNop] |}.
 
@@ -190,9 +194,9 @@ Print Assumptions C02_not_soundness_full.
 Definition ex_for_shadow : program :=
   {| p_funcs := []; p_handlers := [];
      p_stmts :=
-       [SDecl (s_ "x") TNum (ENum 1);
-        SFor (Some (s_ "i")) TNum (RStep None (ENum 2) None)
-          [SCallStmt (s_ "print") [EAny (EBin BPlus TNum (v_ "x" TNum) (ENum 1)) TNum; EAny (v_ "i" TNum) TNum];
+       [SDecl (s_ "x") TNum n1;
+        SFor (Some (s_ "i")) TNum (RStep None n2 None)
+          [SCallStmt (s_ "print") [EAny (EBin BPlus TNum (v_ "x" TNum) n1) TNum; EAny (v_ "i" TNum) TNum];
            SDecl (s_ "x") TStr (EStr (s_ "a"));
            SCallStmt (s_ "print") [EAny (v_ "x" TStr) TStr]]] |}.
 
@@ -212,11 +216,11 @@ Definition ex_concat_left : program :=
              (EIndex TEmptyArr
                 (EGroup (EBin BPlus (TArr TEmptyArr)
                            (EArr (TArr TEmptyArr) [EArr TEmptyArr []])
-                           (EArr (TArr (TArr TNum)) [EArr (TArr TNum) [ENum 1]])))
-                (ENum 1))
+                           (EArr (TArr (TArr TNum)) [EArr (TArr TNum) [n1]])))
+                n1)
              (EArr (TArr TStr) [EStr (s_ "a")]));
         SCallStmt (s_ "print")
-          [EAny (EBin BPlus TStr (EIndex TStr (v_ "y" (TArr TStr)) (ENum 0)) (EStr (s_ "b"))) TStr]] |}.
+          [EAny (EBin BPlus TStr (EIndex TStr (v_ "y" (TArr TStr)) n0) (EStr (s_ "b"))) TStr]] |}.
 
 Example C02_hole_concat_left :
   wt_program ex_concat_left = false /\
